@@ -4942,3 +4942,196 @@ def t_cond_op_verbatim(facts, res, tier):
                      "a comparison rewritten before the hand-over is not among those T-CMPXFORM verifies" % (a0, a1, a2))
     if n == 0:
         raise AnchorMissing("generate_simple_condition: no call of generate_condition_ex under the BinOp arm")
+
+
+# ----------------------------------------------------------------------------- keywords end at a word boundary
+
+KW_BUILTIN_ID = {"ASCII_ALPHA", "ASCII_ALPHANUMERIC", "ASCII_DIGIT", "ASCII_HEX_DIGIT", "ASCII_OCT_DIGIT", "ASCII_NONZERO_DIGIT", "ASCII_ALPHA_LOWER", "ASCII_ALPHA_UPPER", "ANY", "ASCII"}
+KW_BUILTIN_OTHER = {"NEWLINE", "SOI", "EOI", "WHITESPACE", "COMMENT", "DROP", "PEEK", "POP", "PEEK_ALL", "POP_ALL"}
+KEYWORD_BOUNDARY_EXCEPTIONS = {
+    ("bank", "bank"): "`bank1`: the number is part of the spelling of the qualifier (bank = ${ \"bank\" ~ bank_number })",
+}
+
+
+def _kw_flatten(e):
+    if isinstance(e, dict) and e.get("k") == "seq":
+        return _kw_flatten(e["a"]) + _kw_flatten(e["b"])
+    return [e]
+
+
+def _kw_alts(x):
+    return _kw_alts(x["a"]) + _kw_alts(x["b"]) if isinstance(x, dict) and x.get("k") == "choice" else [x]
+
+
+def _kw_first_id(rules, e, seen=()):
+    """(may begin with a character of an identifier, may match the empty string)"""
+    if not isinstance(e, dict):
+        return (False, True)
+    k = e.get("k")
+    if k in ("str", "insens"):
+        return (bool(e["v"]) and (e["v"][0].isalnum() or e["v"][0] == "_"), e["v"] == "")
+    if k == "range":
+        return (True, False)
+    if k == "ident":
+        v = e["v"]
+        if v in KW_BUILTIN_ID:
+            return (True, False)
+        if v in KW_BUILTIN_OTHER:
+            return (False, v in ("SOI", "EOI", "DROP"))
+        if v in seen or v not in rules:
+            return (False, False)
+        return _kw_first_id(rules, rules[v]["expr"], seen + (v,))
+    if k == "seq":
+        any_id = False
+        for it in _kw_flatten(e):
+            f, nl = _kw_first_id(rules, it, seen)
+            any_id |= f
+            if not nl:
+                return (any_id, False)
+        return (any_id, True)
+    if k == "choice":
+        a = _kw_first_id(rules, e["a"], seen)
+        b = _kw_first_id(rules, e["b"], seen)
+        return (a[0] or b[0], a[1] or b[1])
+    if k in ("opt", "rep"):
+        return (_kw_first_id(rules, e["e"], seen)[0], True)
+    if k in ("negpred", "pospred"):
+        return (False, True)
+    if "e" in e:
+        return _kw_first_id(rules, e["e"], seen)
+    return (False, False)
+
+
+def _kw_guard(rules, e):
+    """keywords K such that `e` is `!R`, R an atomic rule of the form ("K" | ..) ~ (ASCII_ALPHANUMERIC | "_")"""
+    if not (isinstance(e, dict) and e.get("k") == "negpred" and isinstance(e.get("e"), dict) and e["e"].get("k") == "ident"):
+        return set()
+    return _kw_guard_rule(rules, e["e"]["v"])
+
+
+def _kw_guard_rule(rules, name):
+    r = rules.get(name)
+    if not r or r.get("ty") != "atomic":
+        return set()
+    its = _kw_flatten(r["expr"])
+    if len(its) != 2:
+        return set()
+    cls = _kw_alts(its[1])
+    if sorted((c.get("k"), c.get("v")) for c in cls if isinstance(c, dict)) != [("ident", "ASCII_ALPHANUMERIC"), ("str", "_")]:
+        return set()
+    kws = [a for a in _kw_alts(its[0])]
+    if not all(isinstance(a, dict) and a.get("k") == "str" for a in kws):
+        return set()
+    return {a["v"] for a in kws}
+
+
+def _kw_trailing(rules, e, seen=()):
+    """({keyword: guarded}, may match the empty string): the keywords that may be the last characters `e` matched"""
+    if not isinstance(e, dict):
+        return ({}, True)
+    k = e.get("k")
+    if k in ("str", "insens"):
+        v = e["v"]
+        return ({v: False} if len(v) >= 2 and v.isalpha() else {}, v == "")
+    if k == "ident":
+        v = e["v"]
+        if v in KW_BUILTIN_ID or v in KW_BUILTIN_OTHER:
+            return ({}, v in ("SOI", "EOI"))
+        if v in seen or v not in rules:
+            return ({}, False)
+        return _kw_trailing(rules, rules[v]["expr"], seen + (v,))
+    if k == "seq":
+        its = _kw_flatten(e)
+        out = {}
+        nullable = True
+        for i in range(len(its) - 1, -1, -1):
+            t, nl = _kw_trailing(rules, its[i], seen)
+            guards = set()
+            for pv in its[:i]:
+                guards |= _kw_guard(rules, pv)
+            for kw, g in t.items():
+                out[kw] = out.get(kw, True) and (g or kw in guards)
+            if not nl:
+                nullable = False
+                break
+        return (out, nullable)
+    if k == "choice":
+        a = _kw_trailing(rules, e["a"], seen)
+        b = _kw_trailing(rules, e["b"], seen)
+        out = dict(a[0])
+        for kw, g in b[0].items():
+            out[kw] = out.get(kw, True) and g
+        return (out, a[1] or b[1])
+    if k in ("opt", "rep"):
+        return (_kw_trailing(rules, e["e"], seen)[0], True)
+    if k in ("negpred", "pospred"):
+        return ({}, True)
+    if "e" in e:
+        return _kw_trailing(rules, e["e"], seen)
+    return ({}, False)
+
+
+def keyword_sites(rules):
+    """(rule, keyword, guarded) for every place of the grammar where a keyword may be directly followed by something that can begin
+    with a character of an identifier"""
+    out = {}
+
+    def visit(rname, e):
+        if not isinstance(e, dict):
+            return
+        if e.get("k") == "seq":
+            its = _kw_flatten(e)
+            for i, it in enumerate(its[:-1]):
+                kws, _ = _kw_trailing(rules, it)
+                if not kws:
+                    continue
+                follow = False
+                for nx in its[i + 1:]:
+                    f, nl = _kw_first_id(rules, nx)
+                    follow |= f
+                    if not nl:
+                        break
+                if not follow:
+                    continue
+                guards = set()
+                for pv in its[:i]:
+                    guards |= _kw_guard(rules, pv)
+                for kw, g in kws.items():
+                    key = (rname, kw)
+                    out[key] = out.get(key, True) and (g or kw in guards)
+            for it in its:
+                visit(rname, it)
+            return
+        for key in ("a", "b", "e"):
+            if key in e:
+                visit(rname, e[key])
+
+    for name, r in sorted(rules.items()):
+        if _kw_guard_rule(rules, name):
+            continue
+        visit(name, r["expr"])
+    return out
+
+
+@rule("T-KEYWORD-BOUNDARY", floor=10,
+      text="a keyword of the grammar is a word: wherever a keyword literal (two letters or more; written in the rule or ending a rule it references) "
+           "may be followed directly by something that can begin with a letter, a digit or `_`, the keyword is preceded in the same sequence by "
+           "`!R`, R an atomic rule of the form `(\"k1\" | \"k2\" | ..) ~ (ASCII_ALPHANUMERIC | \"_\")` that names it - pest's implicit white space is "
+           "optional, so without the look-ahead `elsewhere = 3;` after an if statement is `else where = 3;`, `returned = 3;` returns `ed = 3`, "
+           "`sizeofy` is the size of y and `void interrupts_off()` defines the interrupt handler `s_off`.  Computed over the whole grammar (FIRST "
+           "characters and trailing keywords through rule references), not a list of keywords")
+def t_keyword_boundary(facts, res, tier):
+    rules = facts.grammar_rules()
+    sites = keyword_sites(rules)
+    gfile = facts.grammars[0]["file"] if getattr(facts, "grammars", None) else "src/cc6502.pest"
+    for (rname, kw), guarded in sorted(sites.items()):
+        key = "T-KEYWORD-BOUNDARY:%s:%s" % (rname, kw)
+        exc = KEYWORD_BOUNDARY_EXCEPTIONS.get((rname, kw))
+        res.inst(key, True, {"rule": rname, "keyword": kw, "guarded": guarded, "exception": exc})
+        if exc:
+            res.note("T-KEYWORD-BOUNDARY exception %s:%s: %s" % (rname, kw, exc))
+            continue
+        if not guarded:
+            res.fail(key, "%s:%s" % (facts.rel(gfile) if hasattr(facts, "rel") else gfile, rules[rname].get("line", 0)),
+                     "in the rule `%s` the keyword `%s` may be followed directly by the first character of a name and no `!<keyword-in-name>` look-ahead "
+                     "precedes it: a name that begins with `%s` is cut in two" % (rname, kw, kw))
